@@ -40,6 +40,19 @@ Proof. exact stream_concat. Qed.
 Theorem C12_ignorable_is_not_newline : forall c, ignorable c = true -> c <> 10.
 Proof. exact ignorable_not_nl. Qed.
 
+(** every line feed of the source lies inside a token (gaps have none), and only line-break tokens, string
+    literals, comments and unterminated-literal error tokens contain one: every newline outside strings and
+    comments is a token *)
+Theorem C12_newline_kinds :
+  forall prof src pts, byte_len src < u32_limit -> lex prof src = Ok pts ->
+    Forall (fun pt => no_nl (tspell (pt_tok pt)) = true \/ nl_kind (tid (pt_tok pt))) pts.
+Proof. exact lex_newline_kinds. Qed.
+
+(** the line the lexer reports after each token ([current_line()]) is the true line of the token's last byte *)
+Theorem C12_post_line_true :
+  forall prof src pts, byte_len src < u32_limit -> lex prof src = Ok pts -> Forall (ptok_in src) pts.
+Proof. exact lex_post_lines. Qed.
+
 (** what [pos_at] (used by [tok_range]) means: 1 + the number of preceding line feeds, and the offset just
     past the last of them *)
 Theorem C12_line_is_true_line : forall pre, fst (pos_at pre) = 1 + count_nl pre.
